@@ -143,11 +143,17 @@ theorem C03_bind_partial (cfg : Cfg) (trig : List String) (s : Sig) (args : List
       | some sl => simp [h]
 
 /-- **Today's code** (flag off). -/
-theorem C03_bind_current_partial (s : Sig) (args : List Nat) (kw0 : KW) (hwf : WF s kw0)
+theorem C03_bind_current (s : Sig) (args : List Nat) (kw0 : KW) (hwf : WF s kw0)
+    (htrig : s.kwarg = false → ∀ k ∈ kw0.keys, k ∉ Spec.kwNames s → k ∉ Gen.TRIGGER_KWARGS) :
+    PS.bind Current.cfg Gen.TRIGGER_KWARGS s args kw0 = Spec.bind s args kw0 :=
+  C03_bind_partial Current.cfg Gen.TRIGGER_KWARGS s args kw0 hwf htrig (Or.inl rfl)
+
+/-- the loop as it was before the `fix:` commit: agreement only without a positional-only name among the keywords -/
+theorem C03_bind_prefix_partial (s : Sig) (args : List Nat) (kw0 : KW) (hwf : WF s kw0)
     (htrig : s.kwarg = false → ∀ k ∈ kw0.keys, k ∉ Spec.kwNames s → k ∉ Gen.TRIGGER_KWARGS)
     (hpo : s.kwarg = false ∨ ∀ k ∈ kw0.keys, k ∉ s.posonly) :
-    PS.bind Current.cfg Gen.TRIGGER_KWARGS s args kw0 = Spec.bind s args kw0 :=
-  C03_bind_partial Current.cfg Gen.TRIGGER_KWARGS s args kw0 hwf htrig (Or.inr hpo)
+    PS.bind Cfg.preFix Gen.TRIGGER_KWARGS s args kw0 = Spec.bind s args kw0 :=
+  C03_bind_partial Cfg.preFix Gen.TRIGGER_KWARGS s args kw0 hwf htrig (Or.inr hpo)
 
 /-- **Full statement for the repaired loop**: no positional-only hypothesis left. -/
 theorem C03_bind_full (trig : List String) (s : Sig) (args : List Nat) (kw0 : KW) (hwf : WF s kw0)
@@ -155,9 +161,9 @@ theorem C03_bind_full (trig : List String) (s : Sig) (args : List Nat) (kw0 : KW
     PS.bind { posonlyKwToKwargs := true } trig s args kw0 = Spec.bind s args kw0 :=
   C03_bind_partial _ trig s args kw0 hwf htrig (Or.inl rfl)
 
-/-- witness of C03-F1: `def f(p, /, **kw)` called `f(1, p=2)` -/
-theorem C03_cex_posonly_kwargs :
-    PS.bind Current.cfg Gen.TRIGGER_KWARGS ⟨["p"], [], 0, [], false, true⟩ [1] [("p", 2)]
+/-- witness of (fixed) C03-F1 on the pre-fix loop: `def f(p, /, **kw)` called `f(1, p=2)` -/
+theorem C03_regress_posonly_kwargs :
+    PS.bind Cfg.preFix Gen.TRIGGER_KWARGS ⟨["p"], [], 0, [], false, true⟩ [1] [("p", 2)]
       ≠ Spec.bind ⟨["p"], [], 0, [], false, true⟩ [1] [("p", 2)] := by decide
 
 /-- the intended deviation: a reserved trigger keyword that no parameter accepts is dropped, nothing else changes -/
